@@ -1,0 +1,11 @@
+//go:build verif
+
+package appdb
+
+// VerifPending reports what the next Commit will flush: a pending validators list and the three dirty flags.
+// Observation only (crash-point enumeration compares the real write sequence with the modelled guards).
+func (appDB *AppDB) VerifPending() (validators, dirtyVersions, dirtyEmission, dirtyPrice bool) {
+	appDB.mu.Lock()
+	defer appDB.mu.Unlock()
+	return appDB.validators != nil, appDB.isDirtyVersions, appDB.isDirtyEmission, appDB.isDirtyPrice
+}
